@@ -115,7 +115,7 @@ PROPS = {
         'claim': 'Exhaustive within scope: closure over insert / erase (members and non-members) / find (no visitor, rejecting visitor, visitor accepting the j-th offer) / resize (every count x function, also while pending, also 0) / rehash / shrink_to_fit / swap / foreach / clear over 3-5 (thorough 4-6) elements with colliding and repeated keys and bucket counts up to 8; every find result, offer sequence, size and erase effect compared with a set model in every reachable table state (most of them mid-rehash). Visit functions signal acceptance with values of both signs and verify their private pointer; the table-wide clean bit (which survives clear) is part of the state; odd configurations are built with CSTL_HASH_INITIALIZER; plus enumerated large tables (up to 16384 buckets) driven through complete rehashes.',
         'note': E1_NOTE,
         'technique': 'explicit-state BFS to closure on the real code vs set model; key = public struct (geometry, pending geometry, sweep index, relative dirty flags, chains)',
-        'jobs': [{'world': 'hash', 'src': 'worlds/hash_world.c', 'lib': [], 'unity': True, 'flavours': BOTH, 'private': True}, BIG_JOB],
+        'jobs': [{'world': 'hash', 'src': 'worlds/hash_world.c', 'lib': [], 'unity': True, 'flavours': BOTH, 'private': True, 'nopriv_wflags': ['-DHASH_NOPRIV=1']}, BIG_JOB],
         'rule': 'breadth-first search to closure; a state is non-trivial when an incremental rehash is pending in it',
         'assumptions': ASSUME_E1,
     },
@@ -124,7 +124,7 @@ PROPS = {
         'claim': 'Exhaustive within scope: in every reachable table state of the C03 search (all stages of grow and shrink rehashes) foreach_const (also with early stop at every visit) is evaluated, and foreach, foreach with a visitor that erases+poisons the visited element, clear(callback) and clear(NULL) are applied as transitions; after clear the object must serialise like a fresh one, so resize/insert/find after clear are part of the closure.',
         'note': E1_NOTE,
         'technique': 'explicit-state BFS to closure on the real code; enumeration entry points crossed with every reachable table state',
-        'jobs': [{'world': 'hash', 'src': 'worlds/hash_world.c', 'lib': [], 'unity': True, 'flavours': BOTH, 'private': True}, BIG_JOB],
+        'jobs': [{'world': 'hash', 'src': 'worlds/hash_world.c', 'lib': [], 'unity': True, 'flavours': BOTH, 'private': True, 'nopriv_wflags': ['-DHASH_NOPRIV=1']}, BIG_JOB],
         'rule': 'breadth-first search to closure; a state is non-trivial when an incremental rehash is pending in it',
         'assumptions': ASSUME_E1,
     },
@@ -133,7 +133,7 @@ PROPS = {
         'claim': 'Exhaustive within scope: on every transition of the C03 search the instrumented hash functions log (key, table size, function); load == size/n right after every resize request (also while pending, back to the previous geometry, repeated); single consultation with the requested geometry whenever no rehash is pending; while pending every keyed operation cleans between 1 and 3 dirty buckets (read from the public struct before/after), relocates nodes out of at most 3 buckets, and the dirty count strictly falls - by induction over the closure a rehash finishes within bucket-count keyed operations. On enumerated large tables (up to 16384 buckets) every lookup of a pending rehash must clean at most 3 buckets (at least 1 unless it completes the rehash).',
         'note': E1_NOTE + ' Calls to the built-in cstl_hash_mul cannot be logged (tables that never named a function are explored but not call-counted).',
         'technique': 'explicit-state BFS to closure on the real code with per-transition work accounting (hash-call log + dirty-bucket deltas)',
-        'jobs': [{'world': 'hash', 'src': 'worlds/hash_world.c', 'lib': [], 'unity': True, 'flavours': BOTH, 'private': True}, BIG_JOB_C19],
+        'jobs': [{'world': 'hash', 'src': 'worlds/hash_world.c', 'lib': [], 'unity': True, 'flavours': BOTH, 'private': True, 'nopriv_wflags': ['-DHASH_NOPRIV=1']}, BIG_JOB_C19],
         'rule': 'breadth-first search to closure; a state is non-trivial when an incremental rehash is pending in it',
         'assumptions': ASSUME_E1,
     },
